@@ -25,7 +25,10 @@ c_osslrt(void)
         b = k ? jose_openssl_jwk_from_RSA(NULL, k) : NULL;
         RSA_free(k);
     }
-    putjson(b);
+    if (kty && strcmp(kty, "oct") == 0)
+        putchar('-');          /* no type-specific route for symmetric keys */
+    else
+        putjson(b);
     EVP_PKEY_free(pk);
     json_decref(a);
     json_decref(b);
